@@ -1,4 +1,7 @@
 mod c02;
+mod c03;
+mod c04;
+mod c05;
 mod c06;
 mod c07;
 mod c08;
@@ -8,6 +11,7 @@ mod c14;
 mod c17;
 mod c20;
 mod pki;
+mod rauth;
 mod sess;
 mod trace;
 mod common;
@@ -50,6 +54,9 @@ fn main() {
         "C12" => c12::run(&mut ctx),
         "C06" => c06::run(&mut ctx),
         "C02" => c02::run(&mut ctx),
+        "C03" => c03::run(&mut ctx),
+        "C04" => c04::run(&mut ctx),
+        "C05" => c05::run(&mut ctx),
         "C13" => c13::run(&mut ctx),
         "C14" => c14::run(&mut ctx),
         "C17" => c17::run(&mut ctx),
